@@ -14,6 +14,7 @@ import (
 	"verif/harness/hostilex"
 	"verif/harness/identx"
 	"verif/harness/idsx"
+	"verif/harness/lockx"
 	"verif/harness/page"
 	"verif/harness/queryx"
 	"verif/harness/removex"
@@ -25,6 +26,8 @@ import (
 var commands = map[string]func(args []string){}
 
 func init() {
+	commands["lock"] = lockx.Run
+	commands["lock-worker"] = lockx.Worker
 	commands["fidelity"] = fidx.Run
 	commands["fidelity-worker"] = fidx.Worker
 	commands["page"] = page.Run
